@@ -420,7 +420,7 @@ def r_reg_fresh(ck: Checker) -> None:
     if rets and all(x == "proven" for x in verdicts):
         ck.holds("R-REG-FRESH", h, h.node, what, evaluations=len(rets))
     elif "truthiness" in verdicts:
-        ck.violation("R-REG-FRESH", h, h.node, what, construct="_get_next_unique_id: freshness is tested by the truthiness of the registered node (a falsy node counts as free)")
+        ck.violation("R-REG-FRESH", h, h.node, what, positive=True, construct="_get_next_unique_id: freshness is tested by the truthiness of the registered node (a falsy node counts as free)")
     elif "untested" in verdicts or not rets:
         ck.violation("R-REG-FRESH", h, h.node, what, construct="_get_next_unique_id: loop condition does not establish freshness of the returned id")
     else:
@@ -626,7 +626,7 @@ def r_unique_id_state(ck: Checker, rule: str = "R-ID-DET") -> None:
     used_state = sorted({n_.id for n_ in ast.walk(h.raw or h.node) if isinstance(n_, ast.Name) and n_.id in mod_state})
     what_s = "_get_next_unique_id depends on the requested id and the registry only"
     if used_state:
-        ck.violation(rule, h, h.node, what_s, construct=f"_get_next_unique_id reads / updates the module-level {used_state[0]} (the id depends on earlier collisions, not only on what is registered now)")
+        ck.violation(rule, h, h.node, what_s, positive=True, construct=f"_get_next_unique_id reads / updates the module-level {used_state[0]} (the id depends on earlier collisions, not only on what is registered now)")
     else:
         ck.holds(rule, h, h.node, what_s)
 
